@@ -20,6 +20,8 @@ pub mod regdev;
 pub mod c10;
 pub mod c12;
 pub mod c11;
+pub mod drivers;
+pub mod c13;
 pub mod replay;
 
 pub use engine::chooser::{choose, deviate};
